@@ -39,11 +39,27 @@ def generate(rep, quick, seed):
         if sim:
             jobs.append((mod, sim, note + " - random deeper schedules with 4 units",
                          dict(workers=1, timeout=1500, simulate=dict(num=150 if quick else 4000), depth=20, seed=seed)))
+    # design level: implementation-shaped specs of the orchestrator's Run loop and of the Cleanup
+    # service (fixed variants must satisfy C11; the as-is variants must show the two defects)
+    impl = [("OrchImpl", "OrchMC.cfg", None, "orchestrator Run loop, 3 members x {new,running,finished}: StartedAtMostOnce AwaitedAll "
+             "CollectsAll NoStranded WaitJustified + liveness Settles (fixed variant)"),
+            ("OrchImpl", "OrchMC_asis.cfg", "AwaitedAll", "as-is variant: a service found running is awaited only until the orchestrator's context ends"),
+            ("CleanupImpl", "CleanupMC.cfg", None, "Cleanup service, 3 jobs: AtMostOnce AllAcceptedRun Completes + Settles (fixed variant)"),
+            ("CleanupImpl", "CleanupMC_asis.cfg", "AllAcceptedRun", "as-is variant: jobs still queued when the context ends are dropped")]
     with cf.ThreadPoolExecutor(max_workers=6) as ex:
         futs = [ex.submit(tlc.run_tlc, COMP, mod, cfg, **kw) for mod, cfg, note, kw in jobs]
+        ifuts = [ex.submit(tlc.run_tlc, COMP, mod, cfg, workers=1, timeout=900) for mod, cfg, want, note in impl]
         results = [f.result() for f in futs]
+        iresults = [f.result() for f in ifuts]
     out = {}
     ok = True
+    for (mod, cfg, want, note), r in zip(impl, iresults):
+        rep.add_tlc("%s/%s" % (mod, cfg), r, note)
+        if want is None and not r.ok:
+            rep.infra_error("model check of %s/%s failed (%s): spec and code must be re-aligned\n%s" % (mod, cfg, r.violated, r.out[-1500:]))
+            ok = False
+        elif want is not None:
+            rep.self_test("%s is not vacuous (%s)" % (want, note), r.violated == want, str(r.brief()))
     for (mod, cfg, note, kw), r in zip(jobs, results):
         rep.add_tlc("%s/%s" % (mod, cfg), r, note)
         if not r.ok:
@@ -56,17 +72,17 @@ def generate(rep, quick, seed):
     behs = []
     for mod, edge, sim, nq, note in PARTS:
         e = sc.maximal(out[mod].get("edge", []))
-        behs += e if not quick else sc.sample(e, nq, seed)
+        behs += sc.sample(e, nq if quick else 20000, seed)
+        rep.cov.setdefault("edge_behaviours", {})[mod] = dict(maximal=len(e), replayed=min(len(e), nq if quick else 20000))
         behs += out[mod].get("sim", [])
-    if not quick:
-        rep.cov["exhaustive"] = True
     return behs
 
 
 def run(rep, tier, seed, replay_file=None):
     quick = tier == "quick"
     rep.assumptions += [
-        "TLC is sound; the abstract specs spec/srv/{OrchAbs,GroupAbs,PoolAbs,CleanupAbs}.tla state C11 with the readings of DESIGN 5.0",
+        "TLC is sound; the abstract specs spec/srv/{OrchAbs,GroupAbs,PoolAbs,CleanupAbs}.tla state C11 with the readings of DESIGN 5.0; "
+        "pubsub.Queue (Remove / Wait / Close), sync.WaitGroup and Service Start/Wait/waitFor behave as modelled in OrchImpl.tla and CleanupImpl.tla",
         "a goroutine snapshot with no running/runnable goroutine is a fixed point (rt.Quiesce, DESIGN 3.3)",
         "readings: a service added after the orchestrator's context ended carries no obligation; found-running members are "
         "driven in gate mode (they return only when the driver says so); 'the group's own context' ends when the group's Run "
